@@ -165,3 +165,26 @@ Example C17_re_count_bounded_ex : exists a,
   nth 63 a CStale = COff 31 /\ nth 64 a CStale = CNull /\ nth 65 a CStale = CNull /\
   re_groups (94 :: concat (repeat [40; 97; 41] 31)) = 31.
 Proof. eexists. vm_compute. repeat split; reflexivity. Qed.
+
+(* ---- termination of compile_char_class (compile.c).  The loop that expands a range lo-hi of a bracket expression,
+   for ( ; ch <= hi; ++ch), is `range_expand ctr fuel lo hi` where ctr is the type of the counter: `int` in the code.
+   It ends within 257 steps for all bytes, 0xff included, and adds exactly lo..hi; whatever class the parser accepts
+   (cls_scan = parse_char_class) is compiled within the same bound (cls_set = compile_char_class, no Fuel, no Oob). *)
+Theorem C17_re_range_expand_terminates : forall c e, 0 <= c -> e <= 255 ->
+  exists l, range_expand ctr_int range_fuel c e = Ok l /\ forall x, In x l <-> c <= x <= e.
+Proof. exact range_expand_total. Qed.
+Print Assumptions C17_re_range_expand_terminates.
+Theorem C17_re_class_compile_terminates : forall from rest, Forall byte from ->
+  cls_scan (S (length from)) true from = Ok (Some rest) -> exists set, cls_set (S (length from)) true from = Ok set.
+Proof. exact cls_set_total_top. Qed.
+Print Assumptions C17_re_class_compile_terminates.
+(* [\xf0-\xff] and [^...\x01-\xff]: accepted by the parser, compiled to 16 and 255 members *)
+Example C17_re_class_compile_terminates_ex :
+  cls_scan 6 true [240; 45; 255; 93; 0] = Ok (Some [0]) /\
+  (exists l, cls_set 6 true [240; 45; 255; 93; 0] = Ok l /\ length l = 16%nat /\ In 255 l) /\
+  (exists l, range_expand ctr_int range_fuel 1 255 = Ok l /\ length l = 255%nat).
+Proof. split; [vm_compute; reflexivity|]. split; eexists; vm_compute; repeat split; try reflexivity. do 15 right. left. reflexivity. Qed.
+(* the same loop with an 8 bit counter (`unsigned char ch`) never ends when the upper bound is 0xff: every fuel runs out *)
+Theorem C17_re_range_expand_8bit_refuted : forall fuel c, byte c -> range_expand ctr_u8 fuel c 255 = Fuel.
+Proof. exact range_expand_u8_loops. Qed.
+Print Assumptions C17_re_range_expand_8bit_refuted.
